@@ -61,7 +61,8 @@ def judge(case, res, prefix):
 
 def gen_cases(rng, tier, scale):
     quick = tier == "quick"
-    sizes = [(64, 64), (66, 66), (70, 94), (128, 96), (130, 74), (176, 144)]
+    # width and height remainders modulo 8 differ in several sizes: right and bottom padding are handled by twin code paths
+    sizes = [(64, 64), (66, 66), (70, 94), (128, 96), (130, 74), (176, 144), (76, 80), (80, 76), (68, 90), (132, 70), (100, 64), (64, 100)]
     cases = []
     for i in range(int((30 if quick else 400) * scale)):
         w, h = rng.choice(sizes)
@@ -70,7 +71,7 @@ def gen_cases(rng, tier, scale):
                              **{"cfg.stat_report": 1, "cfg.enc_mode": rng.choice([8, 8, 7, 6, 5, 4] if i % 5 else [2, 0]),
                                 "cfg.tf_level": rng.choice([-1, 0, 1, 2]), "cfg.enable_overlays": rng.choice([0, 0, 0, 1]),
                                 "cfg.hierarchical_levels": rng.choice([0, 2, 3, 4]), "cfg.qp": rng.choice([10, 30, 50, 63]),
-                                "cfg.logical_processors": rng.choice([1, 4]), "cfg.recon_enabled": rng.choice([0, 1]),
+                                "cfg.logical_processors": 4 if w <= 64 else rng.choice([1, 4]), "cfg.recon_enabled": rng.choice([0, 1]),
                                 "cfg.intra_period_length": rng.choice([-1, 7, 8])})
         if int(c["cfg.enc_mode"]) <= 2:
             c["frames"] = 5
